@@ -13,6 +13,7 @@ import AITB.Model.Num
 import AITB.Model.Guard
 import AITB.Gen.Constants
 import AITB.Gen.Guards
+import AITB.Gen.C06Sites
 namespace AITB.MS
 open AITB AITB.Guard
 
@@ -99,9 +100,20 @@ def anyNeg (row : List XRat) : Bool := row.any (fun v => XRat.lt v (.fin 0))
 def isProbDense (row : List XRat) : Bool :=
   !(anyNeg row || diffSmall (sumX row) (.fin 1))
 
-/-- src/Utils/Probability.cpp, sparse row: sum and sum of absolute values both ≈ 1 -/
-def isProbSparse (row : List XRat) : Bool :=
+/-- src/Utils/Probability.cpp, sparse row, AS FIRST READ: sum and sum of absolute values both ≈ 1 (no sign test: entries in
+    [-tol/2, 0) pass) -/
+def isProbSparseAbs (row : List XRat) : Bool :=
   !(diffSmall (sumX row) (.fin 1) || diffSmall (sumX (row.map xabs)) (.fin 1))
+
+/-- … after fixes/C05-2 (repo 54353bc): `if (it.value() < 0.0) return false` over every STORED value, then the row sums.
+    Entries that are not stored are zeros (never negative), a stored -0.0 or NaN is not `< 0.0` (a NaN makes the sum NaN);
+    the sign pass over the whole matrix before the sums does not change the Boolean. -/
+def isProbSparseSign (row : List XRat) : Bool :=
+  !(anyNeg row || diffSmall (sumX row) (.fin 1))
+
+/-- `isProbability(const SparseMatrix2D &)`, in the form the source has today (AITB.Gen.C06Sites.sparseSignTest) -/
+def isProbSparse (row : List XRat) : Bool :=
+  if AITB.Gen.C06Sites.sparseSignTest then isProbSparseSign row else isProbSparseAbs row
 
 /-! ## tables -/
 
